@@ -259,9 +259,24 @@ class _Paginator:
         self.s3 = s3
 
     def paginate(self, **kw: Any):
-        token = None
+        # botocore semantics of PaginationConfig: PageSize -> MaxKeys of every request; MaxItems -> the iteration
+        # stops once that many items were yielded in total (the last page is cut)
+        cfg = kw.pop("PaginationConfig", None) or {}
+        max_items = cfg.get("MaxItems")
+        if cfg.get("PageSize"):
+            kw["MaxKeys"] = int(cfg["PageSize"])
+        token = cfg.get("StartingToken")
+        yielded = 0
         while True:
             page = self.s3.list_objects_v2(ContinuationToken=token, **kw) if token else self.s3.list_objects_v2(**kw)
+            if max_items is not None:
+                room = int(max_items) - yielded
+                items = page.get("Contents", [])
+                if len(items) >= room:
+                    page = dict(page, Contents=items[:room], KeyCount=room)
+                    yield page
+                    return
+                yielded += len(items)
             yield page
             if not page.get("IsTruncated"):
                 return
